@@ -293,6 +293,21 @@ def run(tier: str, seed: int) -> int:
         rnd = random.Random(seed + 6)
         extra = export(run_, "MC_RuleDB", "NL = 3 MaxRules = 2", "NL = 3 MaxRules = 3", "all insertion histories, 3 labels, 3 rules")
         hists += rnd.sample(extra, 2000)
+    # longer seeded histories rich in one-way single-child rules (cycles that change the root's representative late)
+    rndh = random.Random(seed + 8)
+    for _ in range(2500 if tier == "quick" else 40000):
+        nl = rndh.randint(3, 5)
+        h = []
+        for _ in range(rndh.randint(3, 6)):
+            kind = rndh.random()
+            s0 = rndh.randrange(nl)
+            if kind < 0.55:
+                h.append({"s": s0, "e": [rndh.randrange(nl)], "tw": rndh.random() < 0.25})
+            elif kind < 0.7:
+                h.append({"s": s0, "e": [], "tw": False})
+            else:
+                h.append({"s": s0, "e": sorted(rndh.randrange(nl) for _ in range(2)), "tw": False})
+        hists.append(h)
     jobs = [(h, it) for h in hists for it in (False, True)]
     hevs = pmap(history_events, jobs, procs=16, chunk=128)
     for i, ((h, it), e) in enumerate(zip(jobs, hevs)):
